@@ -310,10 +310,15 @@ def run(ctx, C07):
         addop(rng.choice(["len", "slice"]), n + 9, rng.choice(scheds), inp, ",".join(["n"] * j + ["b%d" % rng.randrange(0, 4), "N"]))
     # the witnesses of Props/C07_ops.v (C07_read_bytes_after_token_refuted, C07_mid_position_refuted) on the real code: model = implementation
     w = b"abcdefghij klmnopqrst"
-    wit = ["tr.ops\tlen\t15\t%s\t%s\tn,b1" % (sched_str([1] * 21), hexs(w)), "tr.ops\tslice\t0\t-\t%s\tn,b1" % hexs(w),
-           "tr.ops\tlen\t15\t%s\t%s\tn,n,n" % (sched_str([1] * 21), hexs(w)), "tr.ops\tslice\t0\t-\t%s\tn,n,n" % hexs(w)]
+    wit = ["tr.opsp\tlen\t15\t%s\t%s\tn,b1" % (sched_str([1] * 21), hexs(w)), "tr.opsp\tslice\t0\t-\t%s\tn,b1" % hexs(w),
+           "tr.opsp\tlen\t15\t%s\t%s\tn,n,n" % (sched_str([1] * 21), hexs(w)), "tr.opsp\tslice\t0\t-\t%s\tn,n,n" % hexs(w)]
     ctx.correspond("ops_witness", wit)
-    o_impl, _ = ctx.correspond("ops", ocases, nontrivial=lambda c, i: ("U:" in i or "Q:" in i or "B:" in i))
+    # model = implementation on the results and the final position ...
+    ctx.correspond("ops", ocases, nontrivial=lambda c, i: ("U:" in i or "Q:" in i or "B:" in i))
+    # ... and the same calls with position() printed after each of them: judged by the oracles below only (the position in
+    # the middle of the stream depends on the fast path swallowing one blank, which the property does not fix)
+    ocases = [c.replace("tr.opsrec\t", "tr.opsrecp\t", 1).replace("tr.ops\t", "tr.opsp\t", 1) for c in ocases]
+    o_impl, _ = ctx.correspond("ops_positions", ocases, nontrivial=lambda c, i: ("U:" in i or "Q:" in i or "B:" in i), model=False)
     ob = len(o_impl) - len(ocases)
     need_of = {inp: (int(no) if no.isdigit() else None) for inp, no in zip(oin, oneed_out)}
     for k, (mode, cap, sched, inp, ops) in enumerate(ometa):
